@@ -89,3 +89,65 @@ Definition check_case (c : case) : bool :=
   (* the initial store satisfies the hypothesis of the frame theorems for every source *)
   forallb (fun g => goodb g st) gs &&
   forallb (check_hist cbm srcs [] st) hs.
+
+(* ---- a merge REFUSED in the middle of the loop over the common nodes (two models speak for one resource):
+   merge_adm raises at the first offending node it meets; the common nodes met before it are already merged and
+   the temporary clone stays in the store.  The order in which the code meets the common nodes is the iteration
+   order of a Python set; the harness records it (ord) and the model replays it, so that the partial effects are
+   predicted too. ---- *)
+Fixpoint merge_partial (cbm tmp adm : N) (ord : list N) (st : store) : store :=
+  match ord with
+  | [] => st
+  | x :: r =>
+      match find_node cbm x st, find_node tmp x st with
+      | Some c, Some t =>
+          if double_speaker c t then st
+          else match merge_one cbm tmp adm (Some st) x with
+               | Some st' => merge_partial cbm tmp adm r st'
+               | None => st
+               end
+      | _, _ => st
+      end
+  end.
+
+Definition step_o (cbm : N) (o : op) (ord : list N) (st : store) : outcome :=
+  match o, step cbm o st with
+  | OpMerge adm tmp, OErrU EPGQ =>
+      let st1 := clone adm tmp st in
+      match rw_nodes adm tmp (s_nodes st1) with
+      | inl ns => OErr EPGQ (merge_partial cbm tmp adm ord
+                               (map_gid tmp (set_si (SIds [adm])) (mkStore ns (s_edges st1) (s_next st1))))
+      | inr _ => OErrU EPGQ
+      end
+  | _, r => r
+  end.
+
+Fixpoint check_hist_o (cbm : N) (srcs live : list (N * view)) (st : store) (h : list (op * obs)) (os : list (list N))
+  : bool :=
+  match h with
+  | [] => true
+  | (o, ob) :: r =>
+      let ord := match os with x :: _ => x | [] => [] end in
+      let os' := match os with _ :: y => y | [] => [] end in
+      match step_o cbm o ord st with
+      | OErrU e => let '(orc, _, _, _, _) := ob in orc =? code_of e
+      | OOk st' => let '(ok, live') := check_step cbm srcs live o ob 0 st' in
+                   ok && check_hist_o cbm srcs live' st' r os'
+      | OErr e st' => let '(ok, live') := check_step cbm srcs live o ob (code_of e) st' in
+                      ok && check_hist_o cbm srcs live' st' r os'
+      end
+  end.
+
+(* a case together with, per history and per step, the recorded order of the common nodes ([] when irrelevant) *)
+Definition ocase := (case * list (list (list N)))%type.
+Fixpoint forallb2 {A B} (f : A -> B -> bool) (l : list A) (l' : list B) : bool :=
+  match l, l' with
+  | x :: r, y :: r' => f x y && forallb2 f r r'
+  | [], _ => true
+  | _ :: _, [] => false
+  end.
+Definition check_ocase (c : ocase) : bool :=
+  let '((st, cbm, gs, hs), oss) := c in
+  let srcs := map (fun g => (g, view_of g st)) gs in
+  forallb (fun g => goodb g st) gs &&
+  forallb2 (check_hist_o cbm srcs [] st) hs oss.
